@@ -106,6 +106,43 @@ def main():
                 sl = [{"descriptor_type_code": code, k: 1}]
                 out.append(attempt("%s segment type %#04x with key %s of another segment type" % (which, code, k), "ValueError",
                                    (lambda s=s, sl=sl: getattr(s, meth)(segment_descriptor_list=sl)), dev))
+    # 4c. a name (or description) that one of the three code tables knows, given for a field backed by ANOTHER table, is an unknown code there —
+    # also after that very name was resolved, validly, against its own table earlier in the process
+    for which, meth, modname in (("xcopy4", "extendedcopy4", "scsi_cdb_extended_copy_spc4"), ("xcopy5", "extendedcopy5", "scsi_cdb_extended_copy_spc5")):
+        X = importlib.import_module("pyscsi.pyscsi." + modname).ExtendedCopy
+        tkey = "target_descriptor_list" if which == "xcopy4" else "cscd_descriptor_list"
+        ttab = getattr(X, "_target_descriptor_type_codes", None) or getattr(X, "_cscd_descriptor_type_codes", {})
+        tables = dict(target=ttab, device=getattr(X, "_device_type_codes", {}), segment=getattr(X, "_segment_descriptor_type_codes", {}))
+
+        def names(tab):
+            out = set()
+            for v in tab.values():
+                for f in ("name", "description"):
+                    if isinstance(v, dict) and isinstance(v.get(f), str):
+                        out.add(v[f])
+            return out
+        nm = {k: names(v) for k, v in tables.items()}
+
+        def use(field, name):
+            """a request that gives `name` for the field backed by table `field`"""
+            if field == "segment":
+                return dict(segment_descriptor_list=[{"descriptor_type_code": name}])
+            t = dict(good_t)
+            t["descriptor_type_code" if field == "target" else "peripheral_device_type"] = name
+            return {tkey: [t]}
+        for own in ("segment", "device", "target"):
+            for other in ("segment", "device", "target"):
+                if own == other:
+                    continue
+                for name in sorted(nm[own] - nm[other])[:6]:
+                    s, dev = facade(sets["spc"])
+                    try:
+                        getattr(s, meth)(**use(own, name))          # a valid use first (may still be refused for other reasons)
+                    except Exception:  # noqa
+                        pass
+                    s, dev = facade(sets["spc"])
+                    out.append(attempt("%s: the %s name %r given as a %s code (after a valid use of that name)" % (which, own, name, other), "ValueError",
+                                       (lambda s=s, kw=use(other, name): getattr(s, meth)(**kw)), dev))
     # 5. inconsistent iSCSI TransportIDs (REGISTER AND MOVE and REGISTER with SPEC_I_PT)
     ISCSI = 5
     bad_tids = [("session id without format", {"protocol_id": ISCSI, "iscsi_name": "iqn.x", "iscsi_initiator_session_id": "1234"}),
